@@ -190,7 +190,7 @@ class Interp:
         if k == 'EQ':
             return time == self.T(e[1])
         if k == 'DELAY':
-            return time + e[1]
+            return time + num(e[1])
         if k == 'INSTANT':
             return instant
         if k == 'ETERNITY':
